@@ -69,6 +69,12 @@ def gen_repo(rng, portable=False, cfg=None):
                 p = d + '/ChangeLog'
                 add(p)
                 roles['tags'][p] = 'DATA'
+            if rng.random() < 0.25:
+                # other files that share a suffix with the specially typed ones
+                for n in rng.sample(['extra.xml', 'a.xml', 'zz-metadata.xml', 'notes.ebuild.txt', 'metadata.xml.bak'], rng.choice([1, 2])):
+                    p = d + '/' + n
+                    add(p)
+                    roles['tags'][p] = 'DATA'
     roles['categories'] = catlist
     std = cfg.get('standard_dirs')
     # eclass / licenses / profiles
